@@ -179,6 +179,13 @@ class C05(Prop):
                     es.append({"kind": "circ", "ids": ids, "mode": mode, "cls": ("CliffordCircuit", "Circuit")[(len(es) + j) % 2]})
             sid += 1
             yield {"k": "steps", "rows": ins_to_state(t), "r": j % 4, "es": es, "seed": self.seed * 104729 + sid * 4}
+        # wide registers: the N=3 programs relabelled (ascending) onto qubits around index 64, run through circuits
+        for t in range(24 if thorough else 8):
+            ids = rng.choice([u for u in unit if len(u) == 3])
+            n, inj = rng.choice(((66, [64, 65, 66]), (66, [2, 65, 66]), (65, [63, 64, 65]), (70, [1, 64, 66]), (70, [64, 65, 70]), (64, [62, 63, 64])))
+            items = [dict(self.alpha[i], qs=[inj[q - 1] for q in self.alpha[i]["qs"]]) for i in ids]
+            yield {"k": "wide", "n": n, "items": items, "mode": ("circuit", "layers", "plain")[t % 3], "cls": ("CliffordCircuit", "Circuit")[(t // 3) % 2],
+                   "init": ("zero", "ghz", "mixed", "ghz")[t % 4], "r": (0, 0, n, 5)[t % 4]}
         for w in self.walks:
             sid += 1
             w["seed"] = self.seed * 104729 + sid * 1000
@@ -200,6 +207,20 @@ class C05(Prop):
             except Exception as e:
                 rec["exc"] = _exc(e)
                 rec["at"] = len(rec["entries"])
+            return [rec]
+        if scn["k"] == "wide":
+            n = scn["n"]
+            rec = {"op": "widecirc", "prog": [circ.wire_item(it) for it in scn["items"]]}
+            try:
+                St = be.stabilizer
+                S = {"zero": St.zero_state, "mixed": St.maximally_mixed_state, "ghz": St.ghz_state}[scn["init"]](n)
+                S.set_r(scn["r"])
+                rec["wpre"] = be.p_state(S)      # (not "pre"/"post": PreValid / PostValid enumerate the group)
+                c, _o, _g = circ.build(be, scn["items"], n, scn["cls"], scn["mode"], "orig")
+                c.forward(S)
+                rec["wpost"] = be.p_state(S)
+            except Exception as e:
+                rec["exc"] = _exc(e)
             return [rec]
         # walk on one live object
         n = scn["n"]
